@@ -120,11 +120,13 @@ impl<F: Read + Seek> BufRead for Stream<F> {
             && self.current_position() < self.total_len
         {
             self.flush_changes()?;
+            // (Fails if the CompoundFile is gone; find that out before the
+            // window is moved, or the position would be counted twice.)
+            let minialloc = self.minialloc()?;
             self.buf_offset_from_start += self.buffer.cursor() as u64;
             let remaining = self.total_len - self.buf_offset_from_start;
             let stream_id = self.stream_id;
             let offset = self.buf_offset_from_start;
-            let minialloc = self.minialloc()?;
             let result = self.buffer.refill_with(remaining, |buf| {
                 read_data_from_stream(
                     &mut minialloc.write().unwrap(),
